@@ -69,6 +69,7 @@ struct Held {
     append: bool,
     base: Vec<u8>,    // content at open (append)
     written: Vec<u8>, // bytes written through the handle so far
+    pending: Vec<u8>, // bytes written through the handle since its last flush
     dirty: bool,      // written since the last flush
     flushed: bool,    // flushed at least once
 }
@@ -165,16 +166,21 @@ fn c06_backend<V: VirtualFileSystem>(v: &V, backend: &str, root: &str, ctx: &Ctx
     let mut held: Option<Held> = None;
     for _ in 0..steps {
         let f = rng.pick(&files).clone();
-        // never touch the file a handle is open on
-        if held.as_ref().map(|h| h.path == f).unwrap_or(false) {
-            continue;
+        let choice = rng.below(16);
+        // the file a handle is open on is left alone - except that other APPENDING calls may reach it while an append
+        // handle has nothing unflushed (the order of all appends is then unambiguous: every one adds at the end and
+        // none may take anything away)
+        if let Some(h) = held.as_ref().filter(|h| h.path == f) {
+            if !(h.append && !h.dirty && matches!(choice, 3 | 4 | 6 | 7)) {
+                continue;
+            }
+            rep.count("appends_by_other_calls_while_an_append_handle_is_open", 1);
         }
         let pre_cls = match model.get(&f) {
             None => "absent",
             Some(d) if d.is_empty() => "empty",
             Some(_) => "content",
         };
-        let choice = rng.below(16);
         let mut after = String::new();
         let mut big = |rng: &mut Rng, uid: &mut u64| -> Vec<u8> {
             if rng.chance(1, 60) {
@@ -285,7 +291,7 @@ fn c06_backend<V: VirtualFileSystem>(v: &V, backend: &str, root: &str, ctx: &Ctx
                         } else if !append {
                             // what the file shows between open and the first flush is not specified: skip this file until then
                         }
-                        held = Some(Held { path: f.clone(), handle: h, append, base, written: vec![], dirty: false, flushed: false });
+                        held = Some(Held { path: f.clone(), handle: h, append, base, written: vec![], pending: vec![], dirty: false, flushed: false });
                         rep.key_str(&format!("{}|open-{}|{}", backend, if append { "append" } else { "write" }, pre_cls));
                     }
                 }
@@ -296,6 +302,7 @@ fn c06_backend<V: VirtualFileSystem>(v: &V, backend: &str, root: &str, ctx: &Ctx
                     let d = random_data(&mut rng, &mut uid);
                     let _ = h.handle.write_all(&d);
                     h.written.extend(&d);
+                    h.pending.extend(&d);
                     h.dirty = true;
                     let flush = rng.chance(1, 2);
                     let dropit = rng.chance(1, 2);
@@ -306,12 +313,15 @@ fn c06_backend<V: VirtualFileSystem>(v: &V, backend: &str, root: &str, ctx: &Ctx
                         h.dirty = false;
                         h.flushed = true;
                         let expect = if h.append {
-                            let mut b = h.base.clone();
-                            b.extend(&h.written);
+                            // what the handle wrote since its last flush lands at the current end of the file
+                            let mut b = model.get(&h.path).cloned().unwrap_or_default();
+                            b.extend(&h.pending);
                             b
                         } else {
                             h.written.clone()
                         };
+                        h.pending.clear();
+                        let _ = &h.base;
                         model.insert(h.path.clone(), expect);
                         after = format!("handle({}) wrote {} {}", h.path, data_class(&d), if dropit { "and was dropped" } else { "and flushed" });
                         rep.key_str(&format!("{}|handle-{}|{}|{}", backend, if h.append { "append" } else { "write" }, data_class(&d), dropit));
